@@ -227,6 +227,12 @@ class BGP(protocol.Protocol):
                     LOG.error(e)
                     self.fsm.open_message_error(suberror=e.sub_error)
                     return False
+                except struct.error as e:
+                    # an optional parameter (capability) whose value does not have the length
+                    # its type requires: OPEN Message Error, Unspecific (RFC 4271 6.2)
+                    LOG.error(e)
+                    self.fsm.open_message_error(suberror=0)
+                    return False
 
             elif msg_type == bgp_cons.MSG_UPDATE:
                 self._update_received(timestamp=t, msg=msg)
